@@ -134,9 +134,219 @@ def c01_sampled():
     return s
 
 
+
+# ---------------------------------------------------------------------------------------------------
+# C02 — repetition and separators
+def c02_core():
+    s = []
+
+    def add(name, node, tier=Q, aims="", n=3, mod="pc", props=None, **kw):
+        pr = {"C02": tier, "C20": T}
+        if props:
+            pr.update(props)
+        s.append(Shape(f"c02_{name}", node, "refsem", pr, n=n, mod=mod, aims=aims, **kw))
+
+    add("rep_bounds", rest_after(Sp(Rep(Sp(Just(0)), P(1), P(2)))), n=4, pre="t[1] <= t[2]",
+        aims="repeated().at_least(lo).at_most(hi).collect::<Vec>(): count in [lo,hi], greedy, position after last item")
+    add("rep_bounds_inverted", rest_after(Sp(Rep(Sp(Just(0)), P(1), P(2)))), n=3, pre="t[1] > t[2]", finding="F4",
+        aims="at_least > at_most: the interval is empty, nothing may be accepted")
+    add("rep_item2", rest_after(Sp(Rep(Sp(Then(Just(0), Just(1))), P(2), P(3)))), n=4, pre="t[2] <= t[3]",
+        aims="two-token item that matches its first token and then fails: the partial item is given back")
+    add("rep_exactly", rest_after(Sp(RepExactly(Sp(OneOf2(0, 1)), P(2)))), n=4, aims="exactly(n)")
+    add("rep_at_least", rest_after(Sp(Rep(Sp(Just(0)), P(1), INF))), n=4, aims="at_least only (no upper bound)")
+    add("rep_count", rest_after(Sp(RepCount(Then(Just(0), OrNot(Just(1))), P(2), P(3)))), n=4, pre="t[2] <= t[3]",
+        aims="count()")
+    add("rep_unit", rest_after(Sp(RepUnit(Then(Just(0), Just(1)), P(2), P(3)))), n=4, pre="t[2] <= t[3]",
+        aims="Repeated as Parser<()> (counted path, Check mode)")
+    add("rep_unit_unbounded", rest_after(Sp(RepUnit(Then(Just(0), Just(1)), P(2), INF))), n=4,
+        aims="Repeated as Parser<()>: lo == 0 takes the fast loop, lo > 0 the counted path")
+    add("sep_flags", rest_after(Sp(Sep(Sp(Just(0)), Just(1), P(2), P(3), FP(4), FP(5)))), n=4, pre="t[2] <= t[3]",
+        timeout=900, aims="separated_by: all bounds x allow_leading x allow_trailing; separator only between items")
+    add("sep_bounds_inverted", rest_after(Sp(Sep(Sp(Just(0)), Just(1), P(2), P(3), FK(False), FK(False)))), n=3,
+        pre="t[2] > t[3]", finding="F4", aims="separated_by with at_least > at_most")
+    add("sep_item2", rest_after(Sp(Sep(Sp(Then(Just(0), Just(1))), Just(2), K(0), INF, FP(3), FP(4)))), n=3, always_accepts=True,
+        timeout=900, aims="two-token item failing after the separator was consumed: separator given back unless trailing allowed")
+    add("sep_csv", rest_after(Sp(Sep(Sp(NoneOf1(0)), Just(0), P(1), INF, FK(False), FP(2)))), n=4,
+        aims="none_of(sep) items separated by sep; at_least symbolic")
+    add("sep_unit", rest_after(Sp(SepUnit(Just(0), Just(1), P(2), P(3), FP(4), FP(5)))), n=3, pre="t[2] <= t[3]",
+        aims="SeparatedBy as Parser<()>")
+    add("sep_count", rest_after(Sp(SepCount(Just(0), Just(1), P(2), P(3), FK(False), FP(4)))), n=3, pre="t[2] <= t[3]",
+        aims="separated_by(..).count()")
+    add("collect_exactly", rest_after(Sp(CollectEx2(Sp(Just(0))))), n=3,
+        aims="collect_exactly::<[_;2]>: exactly two items, third left unconsumed, fewer = failure")
+    add("enumerate", rest_after(Sp(Enum(Sp(OneOf2(0, 1)), P(2), P(3)))), n=3, pre="t[2] <= t[3]",
+        aims="enumerate(): indices 0.. in input order")
+    add("foldl", rest_after(Sp(Foldl(Sp(Just(0)), Sp(Then(Just(1), Any()))))), n=4,
+        aims="foldl folds from the left over exactly the item sequence")
+    add("foldr", rest_after(Sp(Foldr(Sp(Just(0)), Sp(Any())))), n=3, aims="foldr folds from the right")
+    add("rep_in_choice", rest_after(Or(Tag(1, Then(Sp(Rep(Just(0), K(1), K(2))), Sp(Just(1)))), Tag(2, Sp(Any())))), n=4,
+        aims="repetition succeeds, the following parser fails, the choice falls through from the original position")
+    add("sep_of_reps", rest_after(Sp(Sep(Sp(Rep(Just(0), K(1), INF)), Just(1), K(0), INF, FK(False), FK(False)))), n=4, always_accepts=True,
+        tier=T, timeout=1800, aims="nested repetition: list of non-empty lists")
+    add("rep_bounds_emptyerr", rest_after(Sp(Rep(Sp(Just(0)), P(1), P(2)))), n=3, pre="t[1] <= t[2]", mod="pe",
+        aims="zero-sized error type")
+    add("rep_boxed", rest_after(Bx(Sp(Rep(Bx(Sp(Just(0))), P(1), P(2))))), n=3, pre="t[1] <= t[2]", aims="dyn path")
+    # deeper bounds (thorough)
+    add("rep_bounds_n5", rest_after(Sp(Rep(Sp(Just(0)), P(1), P(2)))), n=5, pre="t[1] <= t[2]", tier=T, timeout=1800)
+    add("sep_flags_n5", rest_after(Sp(Sep(Sp(Just(0)), Just(1), P(2), P(3), FP(4), FP(5)))), n=5, pre="t[2] <= t[3]",
+        tier=T, timeout=2400)
+    add("sep_item2_n5", rest_after(Sp(Sep(Sp(Then(Just(0), Just(1))), Just(2), P(5), INF, FP(3), FP(4)))), n=5,
+        tier=T, timeout=2400)
+    add("sep_item2_n4", rest_after(Sp(Sep(Sp(Then(Just(0), Just(1))), Just(2), K(0), INF, FP(3), FP(4)))), n=4, always_accepts=True,
+        tier=T, timeout=1800)
+    return s
+
+
+# ---------------------------------------------------------------------------------------------------
+# C03 — result contract
+def c03_core():
+    s = []
+
+    def add(name, node, tier=Q, aims="", n=3, mod="pc", **kw):
+        s.append(Shape(f"c03_{name}", node, "contract", {"C03": tier}, n=n, mod=mod, aims=aims, **kw))
+
+    add("choice_prefix", Or3(Tag(1, Then(Just(0), Just(1))), Tag(2, Then(Just(2), Just(3))), Tag(3, Just(4))),
+        aims="trailing tokens after a complete match are rejected")
+    add("or_not", Then(OrNot(Then(Just(0), Just(1))), OrNot(Any())), aims="optional prefix")
+    add("rep", Rep(Just(0), P(1), P(2)), pre="t[1] <= t[2]", aims="repetition leaves an unconsumed tail => rejected")
+    add("sep", Sep(Just(0), Just(1), K(0), INF, FP(2), FP(3)), aims="separated_by + trailing garbage")
+    add("lookahead", Then(Rewind(Then(Just(0), Any())), Then(Any(), Not(Just(1)))), aims="lookahead does not count as consumption")
+    add("lazy_seq", Lazy(Then(Just(0), Just(1))), aims="lazy(): accepts exactly the inputs of which g matches a prefix")
+    add("lazy_choice", Lazy(Or(Then(Just(0), Just(1)), Just(2))), aims="lazy() over a choice")
+    add("lazy_rep", Lazy(Rep(Just(0), P(1), K(2))), pre="t[1] <= 2", aims="lazy() over a bounded repetition")
+    add("recover", Then(RecVia(Then(Just(0), Just(1)), To(Any(), 0xFB)), OrNot(Just(2))), mod="pt",
+        aims="recovered result: has output AND errors; into_result is Err")
+    add("recover_skip", RecSkipUntil(Then(Just(0), Just(1)), Any(), Just(2)), mod="pt", aims="skip_until recovery result contract")
+    add("validate", Then(Validate(Any(), 1), OrNot(Validate(Just(0), 2))), mod="pt", aims="non-fatal errors: output + errors")
+    add("emptyerr", Or(Then(Just(0), Just(1)), TryMap(Any(), 2)), mod="pe", aims="zero-sized error: a failure still carries one error")
+    add("choice_prefix_n4", Or3(Tag(1, Then(Just(0), Then(Just(1), Just(2)))), Tag(2, Then(Just(3), Just(4))), Tag(3, Just(5))), n=4, tier=T)
+    add("lazy_sep_n4", Lazy(Sep(Just(0), Just(1), K(1), INF, FK(False), FP(2))), n=4, tier=T)
+    return s
+
+
+# ---------------------------------------------------------------------------------------------------
+# C05 — backtracking is atomic for emissions
+def c05_core():
+    s = []
+
+    def add(name, node, tier=Q, aims="", n=3, **kw):
+        s.append(Shape(f"c05_{name}", node, "emis", {"C05": tier, "C20": T}, n=n, mod="pt", aims=aims, **kw))
+
+    V = Validate
+    add("or", rest_after(Or(Tag(1, Then(V(Just(0), 1), Just(1))), Tag(2, Then(V(Any(), 2), OrNot(V(Just(2), 3)))))),
+        aims="Or: emission inside the abandoned first alternative vanishes; emissions of the taken one stay, in order")
+    for form in ("tuple", "vec", "array"):
+        add(f"choice_{form}",
+            rest_after(Or3(Tag(1, Then(V(Just(0), 1), Just(1))), Tag(2, Then(V(Just(2), 2), V(Just(3), 3))), Tag(3, V(Any(), 4)), form=form)),
+            aims=f"Choice<{form}>: rewind truncates the emitted-error list after each failed alternative")
+    add("rep_collect", rest_after(Rep(Then(V(Just(0), 1), Just(1)), K(0), INF)), n=4,
+        aims="Repeated (iterator path): the last, failing iteration emitted before failing")
+    add("rep_fast", rest_after(RepUnit(Then(V(Just(0), 1), Just(1)), K(0), INF)), n=4,
+        aims="Repeated fast loop (unit parser, unbounded)")
+    add("rep_counted", rest_after(RepUnit(Then(V(Just(0), 1), Just(1)), K(1), K(2))), n=4,
+        aims="Repeated counted unit path")
+    add("sep", rest_after(Sep(V(Just(0), 1), V(Just(1), 2), K(0), INF, FP(2), FP(3))), n=4, timeout=900,
+        aims="SeparatedBy: an emitting separator that is consumed and then given back leaves no emission")
+    add("sep_item_partial", rest_after(Sep(Then(V(Just(0), 1), Just(1)), V(Just(2), 2), K(0), INF, FK(False), FP(3))), n=4, timeout=900,
+        aims="item emits then fails after a separator")
+    add("or_not", rest_after(OrNot(Then(V(Just(0), 1), Just(1)))), aims="OrNot: emission of the failed optional vanishes")
+    add("not", rest_after(Then(Not(Then(V(Any(), 1), Just(0))), V(Any(), 2))),
+        aims="Not: nothing emitted inside negative lookahead is reported, whether the inner parser succeeds or fails")
+    add("and_is_kept", rest_after(AndIs(V(Any(), 1), NoneOf1(0))),
+        aims="and_is: emission of A (whose output is kept) must be reported")
+    add("and_is_fail", rest_after(Or(Tag(1, AndIs(V(Any(), 1), NoneOf1(0))), Tag(2, V(Any(), 2)))),
+        aims="and_is fails in B: A's emission vanishes with the alternative")
+    add("rewind_kept", Then(Rewind(V(Just(0), 1)), V(Any(), 2)),
+        aims="rewind: emission of the sub-parser whose output is kept must be reported")
+    add("rewind_fail", rest_after(Or(Tag(1, Then(Rewind(V(Just(0), 1)), Just(1))), Tag(2, V(Any(), 2)))),
+        aims="rewind then failure inside an alternative")
+    add("foldl", rest_after(Foldl(V(Just(0), 1), Then(V(Just(1), 2), Just(2)))), n=4,
+        aims="foldl: the failing last iteration's emission vanishes")
+    add("foldr", rest_after(Foldr(Then(V(Just(0), 1), Just(1)), V(Any(), 2))), n=4, aims="foldr likewise")
+    add("recover_first_attempt", rest_after(RecVia(Then(V(Any(), 1), Just(0)), To(V(Any(), 2), 0xFB))),
+        aims="recover_with: emissions of the failed first attempt vanish; the strategy's stay; then the recovered error")
+    add("nested_or_in_rep", rest_after(Rep(Or(Tag(1, Then(V(Just(0), 1), Just(1))), Tag(2, V(Just(0), 2))), K(0), INF)), n=4, tier=T,
+        timeout=1200, aims="choice inside repetition")
+    add("or_n4", rest_after(Or(Tag(1, Then(V(Just(0), 1), Then(V(Just(1), 2), Just(2)))), Tag(2, Then(V(Any(), 3), OrNot(V(Just(3), 4)))))), n=4, tier=T,
+        timeout=1200)
+    add("sep_n5", rest_after(Sep(V(Just(0), 1), V(Just(1), 2), K(0), INF, FP(2), FP(3))), n=5, tier=T, timeout=2400)
+    return s
+
+
+# ---------------------------------------------------------------------------------------------------
+# C06 — primary error = furthest failure (BitErr: exact set union)
+def c06_core():
+    s = []
+
+    def add(name, node, tier=Q, aims="", n=3, **kw):
+        s.append(Shape(f"c06_{name}", node, "far", {"C06": tier, "C20": T}, n=n, mod="pb", aims=aims, **kw))
+
+    add("depths", Or3(Then(Just(0), Then(Just(1), Just(2))), Then(Just(3), Just(4)), Just(5)),
+        aims="alternatives failing at different depths: the deepest wins; equal depths merge")
+    add("depths_vec", Or3(Then(Just(0), Then(Just(1), Just(2))), Then(Just(3), Just(4)), Just(5), form="vec"),
+        aims="same through Choice<Vec>")
+    add("rep_then", Then(Rep(Just(0), K(0), INF), Just(1)),
+        aims="the failed last item of a repetition and the parser that follows fail at the same position: union")
+    add("or_not_then", Then(OrNot(Then(Just(0), Just(1))), Then(Just(2), End())),
+        aims="a failed optional that got further than the eventual failure keeps the primary error")
+    add("sep", Then(Sep(Just(0), Just(1), K(1), INF, FK(False), FK(False)), Just(2)), n=4,
+        aims="separator / item / follower expectations")
+    add("one_none_any", Or3(Then(OneOf2(0, 1), Just(2)), Then(NoneOf1(3), Then(Any(), Any())), Then(Select(4), End())),
+        aims="one_of / none_of / any / select / end error construction sites")
+    add("just_seq", Or(Just2(0, 1), Then(Just(2), Just2(3, 4))), aims="just(sequence) failing at its k-th element")
+    add("try_map_far", Or(Then(Just(0), TryMap(Any(), 1)), Then(Just(2), Just(3))),
+        aims="a user error (try_map) raised at the furthest position is preserved")
+    add("custom_far", Or(Then(Just(0), Custom2(1)), Then(Any(), Just(2))),
+        aims="a user error from custom at the furthest position is preserved")
+    add("try_map_with", Or(TryMapWith(Then(Any(), Any()), 0), Then(Just(1), Just(2))), aims="try_map_with error position")
+    add("trailing", Then(Just(0), OrNot(Just(1))), aims="the implicit end(): unconsumed tail is the failure")
+    s.append(Shape("c06_filter_found", Then(Just(0), Filter(Any(), 1)), "far_found", {"C06": Q, "C20": T}, n=3, mod="pb", finding="F8",
+                   aims="filter rejection: found must be the token at the start of the reported span, None only at end of input"))
+    add("depths_n4", Or3(Then(Just(0), Then(Just(1), Then(Just(2), Just(3)))), Then(Just(4), Then(Just(5), Just(6))), Just(7)), n=4, tier=T,
+        timeout=1200)
+    add("rep_sep_n4", Then(Rep(Then(Just(0), Just(1)), K(0), INF), Sep(Just(2), Just(3), K(1), INF, FK(False), FK(True))), n=4, tier=T, timeout=1800)
+    return s
+
+
+# ---------------------------------------------------------------------------------------------------
+# C08 — recovery
+def c08_core():
+    s = []
+
+    def add(name, node, tier=Q, aims="", n=3, **kw):
+        s.append(Shape(f"c08_{name}", node, "emis", {"C08": tier, "C20": T, "C03": T}, n=n, mod="pt", aims=aims, **kw))
+
+    FB = lambda: To(Any(), 0xFB)
+    add("via_top", rest_after(Sp(RecVia(Tag(1, Then(Just(0), Just(1))), Sp(FB())))),
+        aims="via_parser: transparent when p succeeds; fallback output + exactly one error otherwise; both fail => failure")
+    add("via_in_or_first", rest_after(Or(Tag(1, Then(RecVia(Then(Just(0), Just(1)), FB()), Just(2))), Tag(2, Sp(Any())))),
+        aims="recovery inside the first alternative, which then fails: the recovered error must vanish")
+    add("via_in_or_second", rest_after(Or(Tag(1, Then(Just(0), Then(Just(1), Just(2)))), Tag(2, RecVia(Then(Just(3), Just(4)), FB())))),
+        aims="an earlier alternative failed further ahead: the recovered error is that one")
+    add("via_in_rep", rest_after(Rep(RecVia(Then(Just(0), Just(1)), To(Just(2), 0xFB)), K(0), INF)), n=4, timeout=900,
+        aims="recovery inside repetition")
+    add("via_under_or_not", rest_after(OrNot(RecVia(Then(Just(0), Just(1)), To(Just(2), 0xFB)))), aims="recovery under or_not")
+    add("via_nested", rest_after(RecVia(RecVia(Then(Just(0), Just(1)), To(Just(2), 0xFA)), FB())),
+        aims="recovery nested in recovery")
+    add("skip_until", rest_after(Sp(RecSkipUntil(Tag(1, Then(Just(0), Just(1))), Any(), Just(2)))), n=4, timeout=900,
+        aims="skip_until consumes the fewest skip steps after which `until` matches (until is consumed)")
+    add("skip_retry", rest_after(Sp(RecSkipRetry(Tag(1, Then(Just(0), Just(1))), Any(), Just(2)))), n=4, timeout=900,
+        aims="skip_then_retry_until: retry p after each skip; give up when until matches or skip fails")
+    add("skip_retry_emitting", rest_after(RecSkipRetry(Then(Validate(Just(0), 1), Just(1)), Any(), Just(2))), n=4, timeout=900,
+        aims="only an error-free retry is accepted")
+    add("via_n4", rest_after(Sp(RecVia(Tag(1, Then(Just(0), Then(Just(1), Just(2)))), Sp(To(Then(Any(), Any()), 0xFB))))), n=4, tier=T, timeout=1200)
+    add("skip_until_n5", rest_after(Sp(RecSkipUntil(Tag(1, Then(Just(0), Just(1))), Any(), Just(2)))), n=5, tier=T, timeout=2400)
+    return s
+
+
 # ---------------------------------------------------------------------------------------------------
 def families():
     fams = [
         ("c01", "C01", c01_core()),
+        ("c02", "C02", c02_core()),
+        ("c03", "C03", c03_core()),
+        ("c05", "C05", c05_core()),
+        ("c06", "C06", c06_core()),
+        ("c08", "C08", c08_core()),
     ]
     return fams
